@@ -618,9 +618,19 @@ func TestC08(t *testing.T) {
 	// ---- the runtime acting on the controller's behalf: CleanupOutputs of the output tracker may destroy only untouched
 	// resources that THIS controller owns - never one owned by somebody else or by nobody ----
 	if os.Getenv("VERIF_REPLAY") == "" {
+		tf := newCoqFile("C08_tracker_cases", []string{"Store", "StoreCheck", "Tracker", "TrackerCheck"}, "tcase", "tracker_mismatches")
+
+		var tjl []any
+
+		defer func() { tf.finishSharded(t, dir, rep, tjl, 400); rep.write(t, dir) }()
+
 		for _, cached := range []bool{false, true} {
 			for _, touch := range []bool{false, true} {
-				for _, p := range runTrackerCase(t, cached, touch) {
+				coq, problems := runTrackerCase(t, cached, touch)
+				tf.add(coq)
+				tjl = append(tjl, map[string]any{"tracker": map[string]any{"cached": cached, "touch": touch}})
+
+				for _, p := range problems {
 					rep.violateKey(len(cases), strings.SplitN(p, ":", 2)[0], p, map[string]any{"tracker": map[string]any{"cached": cached, "touch": touch}})
 				}
 
@@ -639,6 +649,9 @@ type trackerProbe struct {
 	touch    bool
 	done     chan error
 	cleanErr error
+	// what the store held when the clean-up started (after the touch), for the model
+	snapshot func() string
+	before   string
 }
 
 func (p *trackerProbe) Name() string               { return "c1" }
@@ -663,6 +676,7 @@ func (p *trackerProbe) Run(ctx context.Context, r controller.Runtime, _ *zap.Log
 		}
 	}
 
+	p.before = p.snapshot()
 	p.cleanErr = r.CleanupOutputs(ctx, resource.NewMetadata("n1", "O", "", resource.VersionUndefined))
 	p.done <- nil
 
@@ -671,7 +685,7 @@ func (p *trackerProbe) Run(ctx context.Context, r controller.Runtime, _ *zap.Log
 	return nil
 }
 
-func runTrackerCase(t *testing.T, cached, touch bool) (problems []string) {
+func runTrackerCase(t *testing.T, cached, touch bool) (coq string, problems []string) {
 	synctest.Test(t, func(t *testing.T) {
 		ctx, cancel := context.WithCancel(context.Background())
 		defer cancel()
@@ -680,8 +694,8 @@ func runTrackerCase(t *testing.T, cached, touch bool) (problems []string) {
 
 		for _, s := range []accSetup{
 			{NS: "n1", Typ: "O", ID: "stale", Owner: "c1"}, {NS: "n1", Typ: "O", ID: "keep", Owner: "c1"},
-			{NS: "n1", Typ: "O", ID: "user"}, {NS: "n1", Typ: "O", ID: "foreign", Owner: "o2"},
-			{NS: "n1", Typ: "O", ID: "userfin", Fins: []string{"f1"}}, {NS: "n2", Typ: "O", ID: "elsewhere", Owner: "c1"},
+			{NS: "n1", Typ: "O", ID: "user"}, {NS: "n1", Typ: "O", ID: "forgn", Owner: "o2"},
+			{NS: "n1", Typ: "O", ID: "ufin", Fins: []string{"f1"}}, {NS: "n2", Typ: "O", ID: "other", Owner: "c1"},
 		} {
 			r := newRes(s.NS, s.Typ, s.ID, "p0")
 			for _, f := range s.Fins {
@@ -703,7 +717,41 @@ func runTrackerCase(t *testing.T, cached, touch bool) (problems []string) {
 			t.Fatal(err)
 		}
 
+		t0 := time.Now()
+
+		listing := func(ns string) string {
+			l, err := st.List(ctx, resource.NewMetadata(ns, "O", "", resource.VersionUndefined))
+			if err != nil {
+				t.Fatal(err)
+			}
+
+			rendered := make([]string, len(l.Items))
+			for i, r := range l.Items {
+				rendered[i] = coqRes(r, t0)
+			}
+
+			return coqList(rendered)
+		}
+
 		p := &trackerProbe{touch: touch, done: make(chan error, 1)}
+		p.snapshot = func() string {
+			// the whole store as one list (order is irrelevant to the model)
+			var all []string
+
+			for _, ns := range []string{"n1", "n2"} {
+				l, err := st.List(ctx, resource.NewMetadata(ns, "O", "", resource.VersionUndefined))
+				if err != nil {
+					panic(err) // not the test goroutine
+				}
+
+				for _, r := range l.Items {
+					all = append(all, coqRes(r, t0))
+				}
+			}
+
+			return coqList(all)
+		}
+
 		if err := rt.RegisterController(p); err != nil {
 			t.Fatal(err)
 		}
@@ -724,19 +772,27 @@ func runTrackerCase(t *testing.T, cached, touch bool) (problems []string) {
 			return err == nil
 		}
 
-		for _, id := range []string{"user", "foreign", "userfin"} {
+		for _, id := range []string{"user", "forgn", "ufin"} {
 			if !exists("n1", id) {
 				problems = append(problems, fmt.Sprintf("tracker-destroyed-foreign: CleanupOutputs destroyed O/%s, which this controller does not own (cached=%v)", id, cached))
 			}
 		}
 
-		if !exists("n2", "elsewhere") {
+		if !exists("n2", "other") {
 			problems = append(problems, "tracker-destroyed-other-namespace: CleanupOutputs of n1/O destroyed a resource of another namespace")
 		}
 
 		if touch && !exists("n1", "keep") {
 			problems = append(problems, "tracker-destroyed-touched: CleanupOutputs destroyed an output the controller had touched since StartTrackingOutputs")
 		}
+
+		touched := "[]"
+		if touch {
+			touched = coqList([]string{coqAtom("keep")})
+		}
+
+		coq = fmt.Sprintf("(%s, (%s, %s), %s, %s, %s, [((%s, %s), %s); ((%s, %s), %s)])", coqAtom("c1"), coqAtom("n1"), coqAtom("O"), touched, p.before, coqBool(p.cleanErr == nil),
+			coqAtom("n1"), coqAtom("O"), listing("n1"), coqAtom("n2"), coqAtom("O"), listing("n2"))
 
 		if p.cleanErr == nil && exists("n1", "stale") {
 			problems = append(problems, "tracker-kept-stale: CleanupOutputs returned nil but the controller's untouched output O/stale is still there")
@@ -747,5 +803,5 @@ func runTrackerCase(t *testing.T, cached, touch bool) (problems []string) {
 		synctest.Wait()
 	})
 
-	return problems
+	return coq, problems
 }
